@@ -2,6 +2,7 @@
    Generated once by tools/mkpins.py from Props/C07b_v6opts.v and then committed: edit both or neither. *)
 From SV Require Import Lib.Base Gen.Consts Gen.WireFields Model.WireBase Proofs.WireBaseProofs.
 From SV Require Import Model.WireIpv6Opt Proofs.WireIpv6OptProofs.
+From SV Require Import Model.WireIpv6Hbh Proofs.WireIpv6HbhProofs.
 From SV Require Import Props.C07b_v6opts.
 
 Check (C07_v6opt_accessors_safe : forall bs,
@@ -24,3 +25,7 @@ Check (C07_v6opt_iter_no_panic : forall data, bytes_ok data = true -> ~ In Panic
 
 Check (C07_v6opt_iter_err_last : forall fuel data pos pre x post,
   v6opt_iter_fuel fuel data pos = pre ++ x :: post -> post <> [] -> exists r, x = Ok r).
+
+Check (C07_v6hbh_accessors_safe : forall bs, v6hbh_check_len bs = Ok tt -> v6hbh_options bs <> Panic).
+
+Check (C07_v6hbh_parse_total : forall bs, bytes_ok bs = true -> v6hbh_parse bs <> Panic).
